@@ -1023,6 +1023,32 @@ def check_gen_determinism(prop, tier, seed, repo, keep):
                                          detail='request %s: run 0 and run %d of the same request differ in %s: %s' % (s['name'], k, where[:3], first_diff(fa[where[0]], fb.get(where[0], '')) if where else 'response framing'),
                                          replay=dict(engine='gen13', set=s['name'], seed=seed)))
                         break
+        # 1b. parameter strings: every spelling of the feature list (and path mode), each repeated in fresh processes
+        params = ['features=protoc+fast', 'features=fast+protoc', 'features=all', 'features=fast', 'features=protoc',
+                  'paths=source_relative,features=protoc+fast', 'features=protoc+fast,paths=import', '']
+        prep = 32 if tier == 'quick' else 96
+        pjobs = {}
+        with cf.ThreadPoolExecutor(max_workers=NCPU) as ex:
+            for s in [x for x in chosen if x['name'] in ('xpkg-all', 'oneofs')]:
+                for pa in params:
+                    q = subprocess.run([sg, '-regenerate', os.path.join(reqdir, s['name'] + '.req'), '-parameter', pa], stdout=subprocess.PIPE, stderr=subprocess.PIPE, timeout=60)
+                    if q.returncode != 0:
+                        raise Broken('schemagen -regenerate -parameter failed: ' + q.stderr.decode()[-300:])
+                    pjobs[(s['name'], pa)] = [ex.submit(runp, q.stdout) for _ in range(prep)]
+            for (sn, pa), js in pjobs.items():
+                outs = [j.result() for j in js]
+                evals += len(outs)
+                distinct.add('param|%s|%s' % (sn, pa))
+                counters['parameter-variant-runs'] = counters.get('parameter-variant-runs', 0) + len(outs)
+                for k, o in enumerate(outs[1:], 1):
+                    if o != outs[0]:
+                        da, db = decode_response(w, outs[0], 'a'), decode_response(w, o, 'b')
+                        fa, fb = {f['name']: f['content'] for f in da['files']}, {f['name']: f['content'] for f in db['files']}
+                        where = [n for n in fa if fa.get(n) != fb.get(n)]
+                        viol.append(dict(prop='C13', key='gen/nondeterministic-across-runs', type=sn,
+                                         detail='request %s with parameter %r: run 0 and run %d differ in %s: %s' % (sn, pa, k, where[:3], first_diff(fa[where[0]], fb.get(where[0], '')) if where else 'response framing / error text'),
+                                         replay=dict(engine='gen13', set=sn, parameter=pa, seed=seed)))
+                        break
         # 2. permutations and subsets of file_to_generate
         multi = [s for s in chosen if len(s['generate']) > 1]
         for s in multi:
